@@ -81,23 +81,16 @@ def _classify(facts, who):
     return v, d
 
 
-def check(ctx):
-    p = ctx.prog()
+def board_path_classes(p):
+    """(dmap, umap, n_event_sites): path class vector -> set of board-primitive event sequences of do_move / undo_move"""
     do = p.fn(POS + '::do_move')
     undo = p.fn(POS + '::undo_move')
-    dn = p.fn(POS + '::do_null_move')
-    un = p.fn(POS + '::undo_null_move')
-    for f in (do, undo, dn, un):
-        ctx.analysed(f)
-    cm = p.fn('engine::create_moveinfo')
-
     # ---- R1a board primitives, path class by path class --------------------------------------------
     def paths(fn):
         evn = [n for n, cfid, nm in fn.calls() if nm.startswith(POS + '::') and short(nm) in PRIMS]
         return summaries(fn, _board_events(fn), _relevant_facts(fn, evn)), evn
     dpaths, devn = paths(do)
     upaths, uevn = paths(undo)
-    ctx.floor('C03.R1.board-events', len(devn) + len(uevn), 16, 'board primitive call sites in do/undo')
 
     def vec_do(facts):
         d = dict(facts)
@@ -138,6 +131,21 @@ def check(ctx):
         dmap.setdefault(vec_do(facts), set()).add(ev)
     for ev, facts in upaths:
         umap.setdefault(vec_undo(facts), set()).add(ev)
+    return dmap, umap, len(devn) + len(uevn)
+
+
+def check(ctx):
+    p = ctx.prog()
+    do = p.fn(POS + '::do_move')
+    undo = p.fn(POS + '::undo_move')
+    dn = p.fn(POS + '::do_null_move')
+    un = p.fn(POS + '::undo_null_move')
+    for f in (do, undo, dn, un):
+        ctx.analysed(f)
+    cm = p.fn('engine::create_moveinfo')
+
+    dmap, umap, n_ev = board_path_classes(p)
+    ctx.floor('C03.R1.board-events', n_ev, 16, 'board primitive call sites in do/undo')
     ctx.info['do_path_classes'] = len(dmap)
     ctx.floor('C03.R1.path-classes', len(dmap), 7, 'do_move path classes')
     for v in sorted(dmap, key=str):
